@@ -60,9 +60,12 @@ class MemBroker(BaseBroker):
         :return: The next invocation id from the queue, or None if the queue is empty.
         :rtype: InvocationId | None
         """
-        if self._queue:
+        try:
+            # popleft is atomic; checking for emptiness first would let another retriever
+            # take the last message between the check and the pop (IndexError)
             return self._queue.popleft()
-        return None
+        except IndexError:
+            return None
 
     def count_invocations(self) -> int:
         """
